@@ -118,10 +118,16 @@ where
                         instrument!(parent: &merge_span, "sink_talkback");
                         trace!("from sink: {message:?}");
                         if let Message::Error(_) | Message::Terminate = message {
-                            ended.store(true, AtomicOrdering::Release);
+                            ended.store(true, AtomicOrdering::SeqCst);
                         }
                         for source_talkback in source_talkbacks.iter() {
-                            if let Some(source_talkback) = &*source_talkback.load() {
+                            // an ending message takes the talkback out of its cell, so that a member is
+                            // disposed by exactly one party even if it is greeting on another thread
+                            let source_talkback = match message {
+                                Message::Error(_) | Message::Terminate => source_talkback.swap(None),
+                                _ => source_talkback.load_full(),
+                            };
+                            if let Some(source_talkback) = &source_talkback {
                                 match message {
                                     Message::Handshake(_) => {
                                         panic!("sink handshake has already occurred");
@@ -181,15 +187,21 @@ where
                                 trace!("from source: {message:?}");
                                 match message {
                                     Message::Handshake(source) => {
-                                        if ended.load(AtomicOrdering::Acquire) {
-                                            call!(
-                                                source,
-                                                Message::Terminate,
-                                                "to source: {message:?}"
-                                            );
+                                        // publish the talkback first and look at `ended` afterwards:
+                                        // if the output is ending concurrently, either the ending
+                                        // party finds the talkback in its cell or this member sees
+                                        // `ended`; whoever empties the cell disposes the member
+                                        source_talkbacks[i].store(Some(source));
+                                        if ended.load(AtomicOrdering::SeqCst) {
+                                            if let Some(source) = source_talkbacks[i].swap(None) {
+                                                call!(
+                                                    source,
+                                                    Message::Terminate,
+                                                    "to source: {message:?}"
+                                                );
+                                            }
                                             return;
                                         }
-                                        source_talkbacks[i].store(Some(source));
                                         let start_count =
                                             start_count.fetch_add(1, AtomicOrdering::AcqRel) + 1;
                                         if start_count == 1 {
@@ -207,11 +219,11 @@ where
                                         panic!("source must not pull");
                                     },
                                     Message::Error(error) => {
-                                        ended.store(true, AtomicOrdering::Release);
+                                        ended.store(true, AtomicOrdering::SeqCst);
                                         for j in 0..n {
                                             if j != i {
                                                 if let Some(source_talkback) =
-                                                    &*source_talkbacks[j].load()
+                                                    &source_talkbacks[j].swap(None)
                                                 {
                                                     call!(
                                                         source_talkback,
